@@ -246,6 +246,9 @@ func runC08(c *runCfg) error {
 						if c.tier != "thorough" && (n+nullAt+pk+ncols+rk)%3 != 0 {
 							continue
 						}
+						if n >= 300 && (nullAt+pk+ncols+rk)%5 != 0 {
+							continue // the large vectors (megabytes per case): a fifth of the combinations
+						}
 						poids := []int{}
 						for i := 0; i < n && i < 5; i++ {
 							poids = append(poids, []int{23, 25, 16, 0}[i%4])
